@@ -314,11 +314,13 @@ def run_once(case):
         names = [f["name"] for f in case["files"]]
         before_snap = snapshot_str(root)
         before = lint_reading(root, names)
+        from binaryornot.check import is_binary
+        binary = {n: bool(is_binary(os.path.join(root, n))) for n in names}
         rc, out, exc = cli.run_cli(annotate_args(case) + names, root)
         after_snap = snapshot_str(root)
         after = lint_reading(root, names)
         return {"rc": rc, "exc": None if exc is None else "%s: %s" % (type(exc).__name__, str(exc)[:160]),
-                "before": before, "after": after,
+                "before": before, "after": after, "binary": binary,
                 "changed": sorted(k for k in set(before_snap) | set(after_snap) if before_snap.get(k) != after_snap.get(k)),
                 "after_files": {k: v for k, v in after_snap.items() if before_snap.get(k) != v}}
 
